@@ -4,9 +4,13 @@ package rules
 
 import (
 	"fmt"
+	"go/token"
 	"sort"
 
+	"golang.org/x/tools/go/ssa"
+
 	"goalignsa/core"
+	"goalignsa/iview"
 )
 
 type Ctx struct {
@@ -18,6 +22,33 @@ type Ctx struct {
 	// locksetErrOnly: shared variables (by source name) that the lockset rule accepts
 	// when every write is under a `!= nil` error test; value = reason
 	locksetErrOnly map[string]string
+	// ViewMode: anchored functions are analysed through their inlined view (package iview):
+	// static calls to unexported functions of the same package are expanded in place. Used for the
+	// second pass that main makes when the first pass (on the functions as written) leaves
+	// obligations open; see MergeViewRun.
+	ViewMode bool
+	views    *iview.Builder
+}
+
+// viewOf returns the inlined view of f (or f itself when no view can be built).
+func (c *Ctx) viewOf(f *ssa.Function) *ssa.Function {
+	if c.views == nil {
+		c.views = iview.NewBuilder(func(caller *ssa.Function, call *ssa.Call, callee *ssa.Function) bool {
+			if c.P.Looked[callee] {
+				return false // an anchor of some rule: its call must stay visible
+			}
+			return callee.Pkg != nil && callee.Pkg == caller.Pkg && !token.IsExported(callee.Name()) && callee.Synthetic == ""
+		})
+	}
+	v, err := c.views.View(f)
+	if err != nil || v == nil {
+		c.L.Note("no inlined view of %s: %v", f, err)
+		return f
+	}
+	if names := c.views.Inlined[v]; len(names) > 0 {
+		c.L.Note("inlined view of %s expands %v", f, dedupe(names))
+	}
+	return v
 }
 
 func (c *Ctx) Thorough() bool { return c.Tier == "thorough" }
@@ -67,6 +98,9 @@ func (c *Ctx) fn(rel, recv, name string) *fnRef {
 	if f == nil || f.Blocks == nil {
 		c.L.Unknown("anchor", label, "function resolves", "-", "anchored function not found in the resolved program (renamed or removed); the rules that depend on it cannot be decided")
 		return &fnRef{label: label}
+	}
+	if c.ViewMode {
+		f = c.viewOf(f)
 	}
 	return &fnRef{F: f, label: label}
 }
